@@ -294,13 +294,21 @@ def check_glvdecomp(res, facts):
         rule.undecided(key, "expected |k1| and |k2| to be taken from two expressions, found %d" % len(absargs), f.loc)
         return
     betas = {}
+    local_helpers = {c.name for _, _, c in DF.local_callees(facts, f)}
+
+    def facts_has_local(name):
+        return name in local_helpers
 
     def leaf(t):
         if t == ("call", "into_bigint", (("arg", 1, ()),)):
             return "k"
         if isinstance(t, tuple) and t[0] == "call" and t[1] == "map" and len(t) > 3 and len(t[3]) == 1 and isinstance(t[3][0], tuple) and t[3][0][0] == "cidx":
             return "n%d" % t[3][0][1]
-        if isinstance(t, tuple) and t[0] == "call" and t[1] == "div_rem" and len(t) > 3 and t[3] == ("0",):
+        # a quotient of (k * n_j) by r: `div_rem(num, r).0` in place, or any helper f(num, r) that rounds it (the identity
+        # below holds for every integer beta, so the rounding rule is irrelevant to it)
+        is_q = isinstance(t, tuple) and t[0] == "call" and len(t[2]) == 2 and show(t[2][1]).find("MODULUS") >= 0 and \
+            ((t[1] == "div_rem" and len(t) > 3 and t[3] == ("0",)) or (t[1] != "div_rem" and not (len(t) > 3 and t[3]) and facts_has_local(t[1])))
+        if is_q:
             num = show(t[2][0])
             nm = "beta1" if "[3]" in num and "[1]" not in num else ("beta2" if "[1]" in num and "[3]" not in num else "beta?%d" % len(betas))
             betas[nm] = t
@@ -332,7 +340,7 @@ def check_glvdecomp(res, facts):
             except NotPoly:
                 qn = None
             wantq = k * Q.var(want_n) * (Q.const(-1) if negd else Q.const(1))
-            if qn is None or not qeq(qn, wantq) or den != "MODULUS":
+            if qn is None or not qeq(qn, wantq) or show(den).find("MODULUS") < 0:
                 problems.append("%s is the quotient of %s by %s, expected %s / r" % (nm, show(num)[:80], show(den)[:30], wantq))
     (rule.bad if problems else rule.ok)(key, "; ".join(problems) if problems else "k1 = k - beta1 n11 - beta2 n21, k2 = -(beta1 n12 + beta2 n22), beta1 = round(k n22 / r), beta2 = round(-k n12 / r)", f.loc)
 
